@@ -9,7 +9,7 @@ func prop(id, title string, rules []string, explain string, notDecided []string,
 
 func init() {
 	prop("C01", "Add/Sub/Mul/Quo/Abs/Neg/Round return the exactly rounded result",
-		[]string{"C01.R1", "C01.R2", "C01.R3", "C01.R4", "C01.R5", "C20.R1", "C20.R2", "C09.R1", "C05.R4"},
+		[]string{"C01.R1", "C01.R2", "C01.R3", "C01.R4", "C01.R5", "C01.R6", "C20.R1", "C20.R2", "C09.R1", "C05.R4"},
 		"Decides the wiring of the rounding kernel for all inputs: the sign that reaches every rounding decision is the sign of the value being rounded; the half comparison is made on the division remainder and a non-zero remainder always raises Inexact or is folded into the coefficient (no lost remainder); single-rounding operations round at most once per path and never skip it; Precision 0 cannot reach the digit-discarding division; the eight decision functions have exactly their modes' truth tables (finite-domain evaluation) and every digit-dropping site consults them.",
 		[]string{"numeric equality with the once-rounded exact result (alignment, digit arithmetic, carries) — quantifies over coefficient values"})
 	prop("C02", "Condition flags describe exactly what happened to the result",
@@ -21,7 +21,7 @@ func init() {
 		"Decides the error plumbing on all paths: GoError returns an error iff a system or trapped bit is set (path enumeration); every ErrDecimal wrapper performs exactly the same-named Context call behind the sticky-error guard and accumulates flags; every return of the single-rounding operations passes the trap filter with the flags it returns; errors are never compared with each other; composite functions test ed.Err() before every result-delivering return and destination write; wrapper-driven loops terminate under any trap set.",
 		[]string{"equality of composite-function results across trap sets when no error is returned (depends on which internal conditions arise)"})
 	prop("C04", "Operations are total: no panic and no hang on any well-formed input",
-		[]string{"C04.R1", "C04.R2", "C04.R3", "C04.R4", "C04.R5", "C01.R3", "C07.R5", "C07.R6"},
+		[]string{"C04.R1", "C04.R2", "C04.R3", "C04.R4", "C04.R5", "C04.R6", "C01.R3", "C07.R5", "C07.R6"},
 		"Decides: the reachable explicit panics are the three tabled, unreachable ones (with exhaustive switch companions); no possibly-nil pointer reaches a dereferencing parameter; every big-integer divisor is a power of ten, a non-zero constant or behind the operand's IsZero test, and table indices are guarded; every API-reachable loop is counted, error-checked on each cycle, or tabled with its variant; the parser rejects signs inside the digit string, keeps a NaN form on error and range-checks finite results.",
 		[]string{"implicit run-time panics that depend on values beyond the listed index/divisor/nil obligations (inside math/big), memory exhaustion, slow-but-finite operations at the ±100000 limits"})
 	prop("C05", "Any argument may alias the destination or another argument",
@@ -43,7 +43,7 @@ func init() {
 		"Decides: every exported Context operation tests all its operands for NaN first and returns setAsNaN with the same operands; setAsNaN's selection order and signaling behaviour (path enumeration); NaN results and invalid-class flags are paired both ways, DivisionByZero with infinity; copied unsigned specials/zeros get their sign from the operands; the exact-zero sum sign is c.Rounding == RoundFloor.",
 		[]string{"the complete result table for finite × special operand combinations beyond these pairings"})
 	prop("C09", "Quantize and RoundToIntegral produce the requested exponent, correctly rounded",
-		[]string{"C09.R1", "C09.R2", "C09.R3", "C09.R4", "C20.R2", "C01.R5"},
+		[]string{"C09.R1", "C09.R2", "C09.R3", "C09.R4", "C09.R5", "C20.R2", "C01.R5", "C04.R6"},
 		"Decides: every digit-dropping path in quantize consults the rounding mode; the last exponent store before every non-system return of quantize is the requested exponent; Quantize yields NaN under each of its five guards; RoundToIntegralValue masks exactly Inexact|Rounded and Exact nothing, both quantize to exponent 0 behind the specials prologue; Ceil/Floor adjust by one only under the strict sign test of the fraction.",
 		[]string{"correctness of the rescaled coefficient and the 0.9→1.0 fix-up arithmetic"})
 	prop("C10", "Integer division and remainder satisfy the division identity",
@@ -63,7 +63,7 @@ func init() {
 		"Decides writer/reader table agreement: special-name, sign and exponent-marker tokens written by the formatter are the ones the parser accepts and map back to the same Form; Compose and Decompose agree on the form byte and Compose assigns the whole value; the float path uses shortest 64-bit formatting and the package parser; all text producers share one formatter.",
 		[]string{"digit/point placement round-trip for every exponent (string arithmetic in fmtE/fmtF vs the parser)"})
 	prop("C14", "String is the GDA scientific string; parsing accepts exactly its grammar",
-		[]string{"C04.R5", "C14.R2", "C14.R3", "C14.R4", "C14.R6", "C13.R1", "C07.R5"},
+		[]string{"C04.R5", "C14.R2", "C14.R3", "C14.R4", "C14.R5", "C14.R6", "C13.R1", "C07.R5"},
 		"Decides: the digit string is sign-free when it reaches BigInt.SetString; special names are alternatives; payload and exponent are validated by strconv with error edges returning errors (base 10, 32 bit); every text entry point goes through the one parser; parse errors return no partial value; plain notation is chosen exactly under exponent ≤ 0 ∧ adjusted ≥ −6 with the documented zero exception; fmtE prints the adjusted exponent.",
 		[]string{"full language equality with the GDA grammar (acceptance of digit strings is delegated to strconv/math/big)", "Format's flag/width layout"})
 	prop("C15", "Cmp is the exact numeric order and CmpTotal is the documented total order",
@@ -88,7 +88,7 @@ func init() {
 		"Decides: no nil pointer reaches NumDigits' comparison on the >128-bit negative path; Decimal.Reduce's count reads the operand, never the destination; Context.Reduce strips after rounding and restores the operand's sign; NumDigits' positive and negative arms are mirror images over the same table entry and the table index is guarded.",
 		[]string{"that the table contents and the float estimate are right (numeric; initialisation code)"})
 	prop("C20", "Rounding modes bracket each other and rounding is monotone",
-		[]string{"C20.R1", "C20.R2", "C01.R1", "C01.R2", "C09.R1", "C20.R5", "C05.R4", "C01.R5", "C02.R5"},
+		[]string{"C20.R1", "C20.R2", "C01.R1", "C01.R2", "C09.R1", "C20.R5", "C05.R4", "C01.R5", "C01.R6", "C02.R5", "C09.R5"},
 		"Decides the structural causes of bracketing/mirroring: exhaustive, distinct dispatch of the eight modes; each decision function has exactly its mode's truth table over neg × sign(half) (so floor/ceiling are complementary in neg, directed modes ignore half, half modes ignore neg); every caller hands the decision the true sign and a real half comparison; no digit-dropping path bypasses it; Sub is add with only y's sign flipped.",
 		[]string{"the relational inequalities between the eight results themselves; monotonicity and scaling laws (numeric)"})
 }
